@@ -213,6 +213,10 @@ static int do_used(uint64_t seed, int n, const char *outname, const char *tmpdir
       v.push_back(nc.z());
     };
     read_all(params, first, false);
+    // a value that is set after it has been queried (as the factories do for derived parameters) replaces the
+    // recorded used value
+    params.add_value(g + ":type", "Changed");
+    sfirst[3] = "Changed";
     const std::string used = std::string(tmpdir) + "/p.used";
     {
       std::ofstream uf(used);
